@@ -47,8 +47,57 @@ def property_theorems():
     return out
 
 
+def source_hash():
+    import hashlib
+    h = hashlib.sha256()
+    for base, dirs, files in sorted(os.walk(LEAN)):
+        dirs[:] = sorted(d for d in dirs if d != ".lake")
+        for f in sorted(files):
+            if f.endswith((".lean", ".toml", ".json")) and f != "ast_hashes.json":
+                p = os.path.join(base, f)
+                h.update(os.path.relpath(p, LEAN).encode() + b"\0" + open(p, "rb").read() + b"\0")
+    return h.hexdigest()[:20]
+
+
+def clean_room(mods):
+    """thorough tier: build everything from clean in a private copy of the sources (the shared incremental build, whose
+    driver other checks may be running, is left alone) and re-check the compiled property modules with leanchecker.
+    The result is cached per source hash, so twenty thorough checks pay for it once."""
+    import shutil
+    room = os.path.join(ROOT, ".cleanroom")
+    stamp = os.path.join(room, "stamp-%s.json" % source_hash())
+    if os.path.exists(stamp):
+        return json.load(open(stamp))
+    shutil.rmtree(room, ignore_errors=True)
+    os.makedirs(room)
+    dst = os.path.join(room, "lean")
+    shutil.copytree(LEAN, dst, ignore=shutil.ignore_patterns(".lake"))
+    rc, out = sh(["lake", "build", "Traph", "driver", "Proofs", "Props"], cwd=dst, timeout=6000)
+    r = {"build_rc": rc, "build_out": out[-3000:] if rc != 0 else "", "checker_rc": -1, "checker_out": ""}
+    if rc == 0:
+        rc3, out3 = sh(["lake", "env", "leanchecker"] + mods, cwd=dst, timeout=6000)
+        r["checker_rc"], r["checker_out"] = rc3, (out3[-2000:] if rc3 != 0 else "")
+    shutil.rmtree(os.path.join(dst, ".lake"), ignore_errors=True)
+    if r["build_rc"] == 0 and r["checker_rc"] == 0:      # failures are not cached: the next run tries again
+        with open(stamp, "w") as f:
+            json.dump(r, f)
+    return r
+
+
 def build(tier="quick"):
-    """returns a dict: ok_model (driver usable), ok_proofs, theorems {name: axioms}, log, forbidden, layout"""
+    """returns a dict: ok_model (driver usable), ok_proofs, theorems {name: axioms}, log, forbidden, layout.
+    Serialised by a lock on the Lean project so that checks started in parallel do not rebuild under each other."""
+    import fcntl
+    os.makedirs(os.path.join(LEAN, ".lake"), exist_ok=True)
+    with open(os.path.join(LEAN, ".lake", "verif.lock"), "w") as lock:
+        fcntl.flock(lock, fcntl.LOCK_EX)
+        try:
+            return _build(tier)
+        finally:
+            fcntl.flock(lock, fcntl.LOCK_UN)
+
+
+def _build(tier):
     t0 = time.time()
     res = {"ok_model": False, "ok_proofs": False, "theorems": {}, "log": "", "forbidden": [], "failed_modules": []}
     py = "/venv/bin/python"
@@ -57,8 +106,6 @@ def build(tier="quick"):
     if rc != 0:
         res["log"] = "gen_layout failed:\n" + out
         return res
-    if tier == "thorough" and os.environ.get("VERIF_NO_CLEAN") != "1":
-        sh(["rm", "-rf", os.path.join(LEAN, ".lake", "build")])
     rc, out = sh(["lake", "build", "Traph", "driver"], cwd=LEAN)
     res["log"] += out[-4000:]
     if rc != 0:
@@ -73,7 +120,7 @@ def build(tier="quick"):
     res["by_property"] = thms
     # audit: #print axioms on every property theorem (only those whose module built)
     names = [n for l in thms.values() for n in l]
-    audit = os.path.join(LEAN, ".lake", "Audit.lean")
+    audit = os.path.join(LEAN, ".lake", "Audit-%d.lean" % os.getpid())
     mods = sorted(set("Props." + f[:-5] for f in os.listdir(os.path.join(LEAN, "Props")) if f.endswith(".lean")))
     mods = [m for m in mods if m not in res["failed_modules"]]
     built_names = []
@@ -84,6 +131,8 @@ def build(tier="quick"):
         built_names += [prefix + x for x in re.findall(r"^theorem\s+(C\d\d\w*)", text, flags=re.M)]
     with open(audit, "w") as f:
         f.write("".join("import %s\n" % m for m in mods))
+        if proofs_built:     # every proof module in one environment: a name declared twice anywhere is an error here
+            f.write("".join("import Proofs.%s\n" % x[:-5] for x in sorted(os.listdir(os.path.join(LEAN, "Proofs"))) if x.endswith(".lean")))
         f.write("".join("#print axioms %s\n" % n for n in built_names))
     rc2, out2 = sh(["lake", "env", "lean", audit], cwd=LEAN)
     for m in re.finditer(r"'([^']+)' depends on axioms: \[([^\]]*)\]", out2):
@@ -91,17 +140,23 @@ def build(tier="quick"):
     for m in re.finditer(r"'([^']+)' does not depend on any axioms", out2):
         res["theorems"][m.group(1)] = []
     res["audit_rc"] = rc2
+    try:
+        os.unlink(audit)
+    except OSError:
+        pass
     if rc2 != 0:
         res["log"] += "\nAUDIT:\n" + out2[-3000:]
     bad_axioms = {n: a for n, a in res["theorems"].items() if not set(a) <= ALLOWED_AXIOMS}
     res["bad_axioms"] = bad_axioms
     res["missing"] = [n for n in names if n not in res["theorems"]]
     res["ok_proofs"] = proofs_built and rc2 == 0 and not res["forbidden"] and not bad_axioms and not res["missing"]
-    if tier == "thorough" and res["ok_proofs"]:
-        rc3, out3 = sh(["lake", "env", "leanchecker"] + mods, cwd=LEAN, timeout=3000)
-        res["leanchecker"] = "ok" if rc3 == 0 else out3[-2000:]
-        if rc3 != 0:
+    if tier == "thorough" and res["ok_proofs"] and os.environ.get("VERIF_NO_CLEAN") != "1":
+        cr = clean_room(mods)
+        res["clean_build"] = "ok" if cr["build_rc"] == 0 else cr["build_out"]
+        res["leanchecker"] = "ok" if cr["checker_rc"] == 0 else cr["checker_out"]
+        if cr["build_rc"] != 0 or cr["checker_rc"] != 0:
             res["ok_proofs"] = False
+            res["log"] += "\nCLEAN ROOM:\n" + cr["build_out"] + "\n" + cr["checker_out"]
     res["wall_s"] = round(time.time() - t0, 2)
     try:
         res["ast_hashes"] = json.load(open(os.path.join(LEAN, "ast_hashes.json")))
